@@ -15,6 +15,13 @@ CHECKS = {
  'C12': dict(cat='proof', tech='Lean 4 proof (monotonicity by induction over event lists) + correspondence over histories with the virtual clock',
    text='Lean: every stored hit counter only grows under any event list (hits_monotone); the model of get_stats is a pure function of the state. K12 drives the real profiler (virtual clock) and the model through random histories of add/decorate (repeated), enable/disable windows, calls and snapshots and compares every snapshot; the oracle checks that nothing recorded disappears or decreases between real snapshots, that removing intermediate snapshots changes nothing, and that entries are sorted, unique, inside the function span, hits>=1, time>=0.',
    note=TB + 'Time is made comparable by wrapping timers.c with a virtual clock in the scratch build only. F-C12a (get_stats overwrote same-label code objects) was found by this check and fixed in /repo (abc378f).', ref='§6 C12'),
+
+ 'C04': dict(cat='proof', tech='Lean 4 proof (simulation: what is stored for a block depends only on that block\'s events) + correspondence with byte-identical twins',
+   text='Lean: unregistered_inert, other_block_inert, attribution_exact (for every event list the hits and time stored for a bytecode value are those produced by the sub-list of its own events), twin_gets_fresh_block; alias_witness proves that identification by bytecode value cannot separate an unregistered byte-identical function on the same line numbers (known finding F-C04a). K04 compares model and real profiler on generated programs with 1-3 byte-identical copies (same file, other files at identical or overlapping line numbers), all registration patterns and re-registrations; the oracle counts each code object\'s own line events.',
+   note=TB + 'Partial: NoCollision (hash(co_code) XOR line injective) is an assumption about SipHash, checked per run; NoAlias is false on the real code (F-C04a, known finding, classified narrowly: every cell between own and own+aliased events). A model-predicted clash of padded bytecodes (needs >= 7 registrations of >= 5 byte-identical functions) would be reported as F-C04b.', ref='§6 C04'),
+ 'C13': dict(cat='proof', tech='Lean 4 proof (all interleavings, inductive Interleave relation) + exhaustive enumeration of task interleavings on the real code + sampled OS-thread schedules',
+   text='Lean: for any interleaving of per-thread/per-task event lists the delivered LINE events are the same multiset (opened_interleave), hence quiescent reports equal the sum of what each task executed (interleave_exact), interleaving_independent; a suspension empties the slot. K13 enumerates every interleaving of 2-3 step-wise driven generators/coroutines/async generators of the same registered code (window and per-step decorator windows) on the real profiler, compares with the model and with the sum of solo runs; free-running OS threads (2-8, silent ones included, tiny switch intervals) are compared with the sum of deterministic per-thread counts, counts back to zero, no crash.',
+   note=TB + 'OS thread schedules can only be sampled; a data race inside the C++ maps is outside the model (the callback never releases the GIL: recorded assumption).', ref='§6 C13'),
 }
 NA = {}
 
